@@ -1,9 +1,12 @@
-"""C02 -- see harness/runfam.py (shared run-family correspondence + oracle_c02)."""
-import runfam
+"""C02 -- see harness/runfam.py (shared run-family correspondence + oracle_c02); plus harness/delayed_cli.py
+(tasks created at run time by create_after creators, through the real command line)."""
+import runfam, delayed_cli
 
 
 def run(ctx):
-    return runfam.run_property(ctx, 'C02')
+    out = runfam.run_property(ctx, 'C02')
+    delayed_cli.delayed_cli_part(ctx, out, 'C02')
+    return out
 
 
 def replay(ctx, payload):
